@@ -11,7 +11,7 @@ MANIFEST = dict(
     technique="Lean 4 proof over a model regenerated from source by a translator + translation validation + correspondence run",
     design="5/C13",
 )
-GEN = ["Versions"]
+GEN = ["Versions", "BatchSelfTest"]
 THEOREMS = [
     "c13_translated",
     "c13_iff_before_cutoff",
@@ -28,6 +28,8 @@ THEOREMS = [
     "c13_bad_member_isolated",
     "c13_single_messages_unaffected",
     "c13_version_change_mid_connection",
+    "c13_selftest_translated",
+    "c13_selftest_table_agrees",
 ]
 RULE = (
     "decision: every string dddd-dd-dd (all 10^4 month/day digit pairs) of the years 2015..2035 (quick) / 1990..2199 "
@@ -130,7 +132,7 @@ class Decision(Suite):
         from chuk_mcp.protocol.types.versioning import SUPPORTED_VERSIONS
 
         years = range(2015, 2036) if budget == "quick" else range(1990, 2200)
-        out = [{"v": None}, {"v": ""}]
+        out = [{"v": None}, {"v": ""}, {"selftest": 1}]
         out += [{"v": v} for v in SUPPORTED_VERSIONS]
         out += [{"v": v} for v in (
             "2025-06-17", "2025-06-18", "2025-06-19", "2025-05-31", "2025-07-01", "2025-05-99", "2025-06-00",
@@ -173,6 +175,19 @@ class Decision(Suite):
 
         out = []
         for c in cases:
+            if "selftest" in c:  # the module's own printed self-test (its table is regenerated as Gen/BatchSelfTest.lean)
+                import contextlib, io
+                from chuk_mcp.protocol.features import batching as B
+
+                buf = io.StringIO()
+                try:
+                    with contextlib.redirect_stdout(buf):
+                        B.test_version_batching_scenarios()
+                    txt = buf.getvalue()
+                    out.append({"selftest": {"ok": txt.count("\u2705"), "bad": txt.count("\u274c")}})
+                except Exception as ex:  # noqa
+                    out.append({"selftest": {"raised": type(ex).__name__}})
+                continue
             if "year" in c:
                 vs = year_strings(c["year"])
                 out.append({
@@ -194,6 +209,8 @@ class Decision(Suite):
 
     # ---------------------------------------------------------------- model
     def model_line(self, case):
+        if "selftest" in case:
+            return None
         if "year" in case:
             return {"m": "versions", "year": case["year"]}
         v = case["v"]
@@ -274,6 +291,11 @@ class Decision(Suite):
         return None
 
     def oracle(self, case, o):
+        if "selftest" in case:
+            st = o["selftest"]
+            if st.get("bad") and self._ctx is not None:
+                self._ctx.notes.append(f"INFORMATIONAL: the module's own self-test prints {st['bad']} failing row(s)")
+            return None
         if "year" in case:
             vs = year_strings(case["year"])
             for i, v in enumerate(vs):
@@ -285,6 +307,8 @@ class Decision(Suite):
             self._check_api(case["v"], o["supports"], o.get("api")) if (case["v"] is None or case["v"] == "" or WELL.match(case["v"])) else None)
 
     def kind(self, case, o):
+        if "selftest" in case:
+            return "selftest"
         if "year" in case:
             y = case["year"]
             return "year/" + ("before" if y < 2025 else "cutoff-year" if y == 2025 else "after")
@@ -299,6 +323,8 @@ class Decision(Suite):
         return True
 
     def shrink_candidates(self, case):
+        if "selftest" in case:
+            return
         if "year" in case:
             o = self.impl_batch([case])[0]
             for i, v in enumerate(year_strings(case["year"])):
